@@ -72,6 +72,11 @@ class C06(common.Prop):
         rng = ctx.rng
         out = []
         while len(out) < n:
+            if rng.random() < 0.12:
+                c = molgen.block_case(rng)
+                c['calls'] = [rng.choice(['CResolve', 'CResolve', 'CIter', 'CAll']) for _ in range(rng.randint(1, 4))]
+                out.append(c)
+                continue
             c = molgen.layered_case(rng, nmax=rng.choice([5, 8, 10]), coarse_last=rng.random() < 0.3,
                                     squash=rng.random() < 0.4, reuse_names=rng.random() < 0.35)
             if c is None:
@@ -200,7 +205,7 @@ class C06(common.Prop):
 
     def case_class(self, case, impl):
         return 'levels=%s %s%s' % (case.get('levels'), 'coarse-last' if case['coarse_last'] else 'atomistic-last',
-                                   (' shared-node' if case.get('squash') else '') + (' reused-names' if case.get('reuse_names') else ''))
+                                   (' shared-node' if case.get('squash') else '') + (' reused-names' if case.get('reuse_names') else '') + (' block|n' if case.get('block') else ''))
 
     def nontrivial(self, case, impl):
         return case.get('nparts', 2) >= 2
